@@ -17,9 +17,10 @@ COEFS = {
 
 def params(tier, rng):
     out = []
-    for S in ([1, 2, 3, 8] if tier == "quick" else range(1, 13)):
+    for S in ([1, 2, 3, 8, 40] if tier == "quick" else list(range(1, 13)) + [40, 100]):
         out.append({"kind": "forest", "S": S, "p": rng.choice([0.0, 0.25, 0.5, 1.0])})
-    dm = [(1, 1, 128, 1), (1, 1, 2, 3), (2, 1, 3, 4), (2, 2, 2, 3), (3, 1, 2, 3), (2, 3, 2, 2), (1, 4, 2, 2), (4, 1, 1, 2),
+    # long useful lives / lead times with a unit order limit keep the tables small; demand far above the order limit
+    dm = [(6, 1, 1, 3), (1, 6, 1, 2), (3, 5, 1, 2), (7, 2, 1, 2), (2, 1, 2, 7), (1, 1, 128, 1), (1, 1, 2, 3), (2, 1, 3, 4), (2, 2, 2, 3), (3, 1, 2, 3), (2, 3, 2, 2), (1, 4, 2, 2), (4, 1, 1, 2),
           (5, 1, 1, 2), (3, 3, 1, 3), (2, 4, 1, 2), (3, 2, 2, 5)]
     if tier == "thorough":
         dm += [(m, L, Q, D) for m in range(1, 6) for L in range(1, 5) for Q in (1, 2) for D in (2, 4)
@@ -28,12 +29,12 @@ def params(tier, rng):
     for (m, L, Q, D) in sorted(set(dm)):
         for fifo in (True, False):
             out.append({"kind": "demoor", "m": m, "L": L, "Q": Q, "D": D, "fifo": fifo})
-    hx = [(1, 2, 2), (2, 2, 1), (2, 1, 2), (2, 2, 2), (3, 1, 1), (1, 3, 1)]
+    hx = [(1, 2, 2), (2, 2, 1), (2, 1, 2), (2, 2, 2), (3, 1, 1), (1, 3, 1), (4, 1, 1)]
     if tier == "thorough":
         hx += [(3, 2, 1), (3, 1, 2), (2, 3, 2), (2, 2, 3), (1, 4, 3)]
     for (m, qa, qb) in hx:
         out.append({"kind": "hendrix", "m": m, "Qa": qa, "Qb": qb})
-    mj = [(1, 2, 2), (2, 2, 3), (3, 2, 2), (2, 3, 2), (4, 1, 2)]
+    mj = [(1, 2, 2), (2, 2, 3), (3, 2, 2), (2, 3, 2), (4, 1, 2), (6, 1, 3), (2, 2, 6)]
     if tier == "thorough":
         mj += [(3, 3, 3), (4, 2, 2), (2, 4, 4), (5, 1, 1), (3, 2, 4)]
     for (m, Q, D) in mj:
